@@ -767,7 +767,10 @@ void RegularExpression::allMatches(const XMLCh* const matchString, const XMLSize
 
             subEx->addElement(context.fMatch);
 
-            context.fMatch = new (manager) Match(*(context.fMatch));
+            // start the next search with clean group positions: a group that does
+            // not take part in the next match must not keep those of this one
+            context.fMatch = new (manager) Match(manager);
+            context.fMatch->setNoGroups(fNoGroups);
             context.fAdoptMatch = true;
 
             matchStart = matchEnd;
